@@ -4,7 +4,7 @@ and writes /verif/mutants/CORPUS.json: patch -> properties whose check reports a
 Corpus maintenance only (not a registered check); run with SCRATCH_FROM_HEAD=1 and redirect the output to a file."""
 import glob, json, os, subprocess, sys, tempfile
 sys.path.insert(0, '/verif/rules')
-os.environ.setdefault('SIMLINT_FACTS_KEEP', '400')
+os.environ.setdefault('SIMLINT_FACTS_KEEP', '150')
 args = sys.argv[1:]
 jobs = 1
 worker_out = None
